@@ -21,6 +21,7 @@ type c07Item struct {
 	anyOf ref.Cat
 	expr  *jmespath.Expression
 	fp    string
+	cold  bool
 }
 
 func c07Rounds(c *Ctx) int { return tierN(c, 16, 64) }
@@ -35,6 +36,22 @@ const c07DirectedDocSmall = `{"nums":[5,3,9,1,7,2,8,4,6,0,15,13,19,11,17,12,18,1
 // way of handing it an array of the shared document (or a literal of the shared
 // Expression) without copying it: in-place work shows as a write-write race,
 // as wrong results, and as a changed document / expression.
+type c07Struct struct {
+	Name string
+	N    int
+	Tags []string
+}
+
+type c07Other struct{ A, B float64 }
+
+func c07ForeignDoc() any {
+	st := c07Struct{Name: "s", N: 3, Tags: []string{"x", "y"}}
+	return map[string]any{
+		"s": st, "p": &c07Struct{Name: "p"}, "o": c07Other{1, 2}, "strs": []string{"b", "a", "c"}, "ints": []int{3, 1, 2}, "m": map[string]string{"a": "1", "b": "2"},
+		"arr": [3]int{1, 2, 3}, "recs": []any{map[string]any{"s": st, "tags": []string{"t"}}, map[string]any{"s": c07Other{3, 4}}}, "nested": map[string]any{"inner": map[string]int{"k": 1}},
+	}
+}
+
 func c07BuildDirectedDoc() string {
 	var big, bad, bigs, bignums strings.Builder
 	for i := 0; i < 100; i++ {
@@ -102,7 +119,13 @@ func c07Round(c *Ctx, idx int) {
 	// document 0: unsorted homogeneous arrays without nulls, for the directed forms
 	docs[0], _ = ref.FromJSON(c07DirectedDoc)
 	godocs[0] = ref.ToGo(docs[0], ref.JSONNumber)
-	directed := c07Directed()
+	// document 1: foreign Go values (typed containers, structs, pointers) inside plain containers;
+	// not modelled: judged by the race detector and by agreement with the sequential outcome
+	godocs[1] = c07ForeignDoc()
+	docs[1] = nil
+	foreign := []string{"@", "s", "strs", "ints", "m", "[s, p]", "type(s)", "type(strs)", "to_array(strs)", "not_null(p, s)", "s == s", "contains([s], s)", "strs[0]", "m.a", "length(strs)", "recs[*].s", "recs[?s]", "[strs, ints, m][0]", "to_string(s)", "p", "length(@)", "recs[0].tags", "arr", "arr[0]", "nested.inner", "nested.inner.k"}
+	directed := append(c07Directed(), foreign...)
+	nForeignFrom := len(directed) - len(foreign)
 	// expressions + sequential outcomes
 	var items []c07Item
 	nodeTypes := map[string]bool{}
@@ -111,7 +134,13 @@ func c07Round(c *Ctx, idx int) {
 		var text string
 		if len(items) < len(directed) {
 			text, d = directed[len(items)], 0
+			if len(items) >= nForeignFrom {
+				d = 1
+			}
 			goto have
+		}
+		if d == 1 {
+			d = 2 + r.Intn(ndocs-2)
 		}
 		switch r.Intn(5) {
 		case 4:
@@ -133,20 +162,36 @@ func c07Round(c *Ctx, idx int) {
 			continue // generated widths may be huge
 		}
 	have:
-		m := ref.Search(text, docs[d])
+		var m ref.Outcome
+		if docs[d] == nil {
+			m = ref.Outcome{Unspec: true}
+		} else {
+			m = ref.Search(text, docs[d])
+		}
 		enum := Enumerates(text)
 		if enum && m.Unspec {
-			continue
+			if len(items) < len(directed) {
+				text, m, enum = "@", ref.Outcome{Unspec: true}, false // keep the directed list aligned
+			} else {
+				continue
+			}
 		}
 		it := c07Item{text: text, doc: d, loose: enum}
 		if !m.Unspec {
 			it.anyOf = m.Fault
 		}
-		l := c.LibSearch(text, godocs[d])
-		if l.Panic != nil {
-			continue
+		// every third item stays cold: neither its text nor its document kind has been
+		// evaluated in this process before the goroutines are released, so anything the
+		// library initialises lazily and process-wide is initialised concurrently; its
+		// sequential outcome is computed after the concurrent phase
+		it.cold = len(items)%3 == 2
+		if !it.cold {
+			l := c.LibSearch(text, godocs[d])
+			if l.Panic != nil && len(items) >= len(directed) {
+				continue
+			}
+			it.canon = canon(l, enum, it.anyOf)
 		}
-		it.canon = canon(l, enum, it.anyOf)
 		if e, lc := c.LibCompile(text); lc.Err == nil && lc.Panic == nil {
 			it.expr = e
 			var types []string
@@ -173,6 +218,7 @@ func c07Round(c *Ctx, idx int) {
 		panicked bool
 	}
 	results := make([][]mismatch, cfg.g)
+	coldSeen := make([][]mismatch, cfg.g)
 	opCounts := make([][3]int64, cfg.g)
 	start := make(chan struct{})
 	var wg sync.WaitGroup
@@ -208,7 +254,9 @@ func c07Round(c *Ctx, idx int) {
 				opCounts[gi][op]++
 				// read the result completely (canon walks every value)
 				got := canon(l, it.loose, it.anyOf)
-				if got != it.canon {
+				if it.cold {
+					coldSeen[gi] = append(coldSeen[gi], mismatch{ii, name, got, l.Panic != nil})
+				} else if got != it.canon {
 					results[gi] = append(results[gi], mismatch{ii, name, got, l.Panic != nil})
 				}
 			}
@@ -216,6 +264,20 @@ func c07Round(c *Ctx, idx int) {
 	}
 	close(start)
 	wg.Wait()
+	// cold items: their outcome when run alone, computed now, must equal every outcome seen concurrently
+	for i := range items {
+		if items[i].cold {
+			l := c.LibSearch(items[i].text, godocs[items[i].doc])
+			items[i].canon = canon(l, items[i].loose, items[i].anyOf)
+		}
+	}
+	for gi := range coldSeen {
+		for _, m := range coldSeen[gi] {
+			if m.got != items[m.item].canon {
+				results[gi] = append(results[gi], m)
+			}
+		}
+	}
 	c.Counters["evaluations"] += int64(perG * cfg.g)
 	var ops [3]int64
 	for _, oc := range opCounts {
@@ -266,7 +328,7 @@ func c07Round(c *Ctx, idx int) {
 func init() {
 	Register(&Property{
 		ID:            "C07",
-		Rule:          "worker built with the Go race detector; each round runs in a fresh process (lazy initialisation races once per process): ~220 expressions (forms that range Go maps, generated calls, core expressions, and builders that sort/reverse/merge/reslice arrays of the shared document or literals of the shared Expression; AST node types covered are counted) over 20 shared read-only documents, plus ~220 directed forms (every ordering/reversing/merging function applied to every way of handing it an array of the shared document or a literal of the shared Expression without a copy), are first evaluated sequentially, then G goroutines (G in {2,8,16,32,64}, GOMAXPROCS in {2,4,16}) are released from a barrier and run a seeded mix of Search(text, sharedDoc), Compile(text)+Search and sharedExpression.Search(sharedDoc), reading every result completely; refuting events: any race-detector report (counted and de-duplicated by the driver from GORACE logs), any call whose canonical outcome differs from the sequential outcome of the same call, a changed AST fingerprint of a shared Expression, a changed shared document; non-trivial = rounds and (expression, document) pairs exercised concurrently",
+		Rule:          "worker built with the Go race detector; each round runs in a fresh process (lazy initialisation races once per process): ~220 expressions (forms that range Go maps, generated calls, core expressions, and builders that sort/reverse/merge/reslice arrays of the shared document or literals of the shared Expression; AST node types covered are counted) over 20 shared read-only documents (one of them holding foreign Go values: structs, pointers, typed slices, maps and arrays), plus ~220 directed forms (every ordering/reversing/merging function applied to every way of handing it an array of the shared document or a literal of the shared Expression without a copy), are first evaluated sequentially - except every third one, which stays cold so that whatever the library initialises lazily and process-wide is initialised under concurrency, and whose outcome alone is computed afterwards - then G goroutines (G in {2,8,16,32,64}, GOMAXPROCS in {2,4,16}) are released from a barrier and run a seeded mix of Search(text, sharedDoc), Compile(text)+Search and sharedExpression.Search(sharedDoc), reading every result completely; refuting events: any race-detector report (counted and de-duplicated by the driver from GORACE logs), any call whose canonical outcome differs from the sequential outcome of the same call, a changed AST fingerprint of a shared Expression, a changed shared document; non-trivial = rounds and (expression, document) pairs exercised concurrently",
 		MinNontrivial: 100,
 		Streams: []Stream{
 			{Name: "rounds", N: c07Rounds, Run: c07Round},
